@@ -26,7 +26,11 @@ func runC04(c *Check, w *World) {
 	if wi != nil {
 		checkWindow(c, w, tb, iv, "R04", wi, wantCentre, false)
 		if wi.bound != nil {
-			got := tb.Of(stripConv(wi.bound)).String()
+			sz := wi.bound
+			if wi.form == "offset" {
+				sz = wi.sizeVal
+			}
+			got := tb.Norm(tb.Of(stripConv(sz))).String()
 			c.Decide(got == resolvedField(fn, pp, "DefaultTOTPParam", "Skew"), "R04.7", fn, "skew-resolution", "the window size is param.Skew, or the default's when param is nil", "the window size is "+clip(got, 200), w.InstrPos(wi.cond))
 		}
 		checkCompareCore(c, w, tb, "R04", val, codeP, deriveExpectation(w, tb, val, secretP, pp, "DefaultTOTPParam", func() string { return tb.Of(wi.ctrArg).String() }, nil))
@@ -38,7 +42,7 @@ func runC04(c *Check, w *World) {
 			gfn := FuncName(gen)
 			gpp, gtp := paramPtrIndex(gen, "Param"), timeParamIndex(gen)
 			want := fmt.Sprintf("calldyn(gval(otp.TimeCounterFunc); param(%s#%d); %s)", gfn, gtp, periodTerm(gfn, gpp, "DefaultTOTPParam"))
-			c.Decide(h.Args[roles.Counter].String() == want, "R04.8", gfn, "period-agreement", "generation computes the step with the same period resolution (0 → 30 s) as validation", "generation's step is "+clip(normT(h.Args[roles.Counter]), 240)+": period resolution differs from validation", w.InstrPos(h.Call))
+			c.Decide(tb.EqNorm(h.Args[roles.Counter], want), "R04.8", gfn, "period-agreement", "generation computes the step with the same period resolution (0 → 30 s) as validation", "generation's step is "+clip(normT(h.Args[roles.Counter]), 240)+": period resolution differs from validation", w.InstrPos(h.Call))
 		}
 	}
 	if lit := defaultsLit(w, "DefaultTOTPParam"); lit != nil && lit.Kind == "struct" {
